@@ -39,6 +39,7 @@ type muxScenario struct {
 	Ops    []muxOp   `json:"ops"`
 	Fault  *muxFault `json:"fault,omitempty"`
 	Demux  bool      `json:"demux,omitempty"`
+	Reuse  bool      `json:"reuse,omitempty"` // the caller keeps one PacketAdaptationField object per class and passes it to every WriteData
 }
 
 // ---------- recording / fault-injecting writer ----------
@@ -128,6 +129,9 @@ func buildUserPacket(kind string, r *rng) *astits.Packet {
 			AdaptationField: &astits.PacketAdaptationField{HasPCR: true, PCR: &astits.ClockReference{Base: cr33(r), Extension: int64(r.intn(300))}, StuffingLength: 176}}
 	case "toobig":
 		return &astits.Packet{Header: astits.PacketHeader{PID: 0x1ffe, HasPayload: true, ContinuityCounter: uint8(r.intn(16))}, Payload: r.bytes(185)}
+	case "nopltoobig": // no payload flagged, yet an oversize Payload slice: must be rejected without a partial write like any other
+		return &astits.Packet{Header: astits.PacketHeader{PID: 0x1ffe, HasAdaptationField: r.boolean(), ContinuityCounter: uint8(r.intn(16))},
+			AdaptationField: &astits.PacketAdaptationField{HasPCR: true, PCR: &astits.ClockReference{Base: cr33(r)}}, Payload: r.bytes(190)}
 	case "toobigaf":
 		return &astits.Packet{Header: astits.PacketHeader{PID: 0x1ffe, HasPayload: true, HasAdaptationField: true, ContinuityCounter: uint8(r.intn(16))},
 			AdaptationField: &astits.PacketAdaptationField{HasPCR: true, PCR: &astits.ClockReference{Base: cr33(r)}}, Payload: r.bytes(180)}
@@ -153,6 +157,7 @@ func runMuxOn(sc *muxScenario, rec *recorder, w *recWriter) {
 		fmode, fat = sc.Fault.Mode, sc.Fault.At
 	}
 	rec.ev(M{"ev": "reset", "t": sc.SID, "kind": "mux", "period": period, "fmode": fmode, "fat": fat})
+	afCache := map[string]*astits.PacketAdaptationField{}
 	var autoPIDs []int
 	resolve := func(p int) int {
 		if p < 0 {
@@ -200,6 +205,13 @@ func runMuxOn(sc *muxScenario, rec *recorder, w *recWriter) {
 			case "data":
 				hdr := buildPESHeader(op.Hdr, op.SID, r)
 				af := buildAF(op.AF, r)
+				if sc.Reuse && af != nil {
+					if c, ok := afCache[op.AF]; ok {
+						af = c // the same object as in the previous call of this class (the library resets what it changed)
+					} else {
+						afCache[op.AF] = af
+					}
+				}
 				payload := r.bytes(op.Len)
 				keep := append([]byte(nil), payload...)
 				d := &astits.MuxerData{PID: uint16(resolve(op.PID)), AdaptationField: af, PES: &astits.PESData{Header: hdr, Data: payload}}
